@@ -48,6 +48,7 @@ type issuedToken struct {
 	Set      map[[3]string]bool // what the token grants, as plain (type, name, action) triples: the oracle's own representation
 	Issued   time.Time
 	Lifetime time.Duration
+	Revoked  bool // the registry no longer accepts it (key rotation, server-side revocation): nobody told the client
 }
 
 type sentReq struct {
@@ -189,7 +190,7 @@ func (n *authNet) tokenValid(tok, host string, demandText string) bool {
 		return true
 	}
 	for _, it := range n.issued {
-		if it.Token == tok && it.Host == host && !n.now.After(it.Issued.Add(it.Lifetime)) && setContains(it.Set, demand) {
+		if it.Token == tok && it.Host == host && !it.Revoked && !n.now.After(it.Issued.Add(it.Lifetime)) && setContains(it.Set, demand) {
 			return true
 		}
 	}
